@@ -34,7 +34,12 @@ RULE = ("secrets: boundary values (1, 2, 3, n-1, n-2, 2^128±1, 2^255±1) and PR
         "aux: zeros, ones, random, aux None; the 16 BIP340 vectors of buidl/test/test_schnorr.py; candidate "
         "signatures: valid ones, single-bit flips at 16 sampled positions of R, of s, of the message and of the "
         "key, R = 0, R ∈ {p, p+1, 2^256-1}, a non-residue R, s ∈ {0, n-1, n, 2^256-1}, n-s, swapped halves, 63/65-byte "
-        "strings; every answer compared with the Lean model AND the Lean BIP340 specification.  Non-trivial = not "
+        "strings; every answer compared with the Lean model AND the Lean BIP340 specification; histories executed in "
+        "one process on SHARED objects (one PrivateKey signing the same message under different aux values and "
+        "different messages under the same aux, interleaved and repeated; one SchnorrSignature object — as returned "
+        "by sign_schnorr and as parsed — verified 5-6 times against right/altered messages and right/other keys, "
+        "right-first and wrong-first), every step compared with the stateless model and specification on the CURRENT "
+        "arguments.  Non-trivial = not "
         "rejected by a length/range check alone; distinct = distinct request lines")
 CLAUSES = {
     "tagged hashes (cache transparency)": "proved (taggedHash_cache_transparent, taggedHash_invariant, tags)",
@@ -135,6 +140,46 @@ def _impl(t):
         p = E.S256Point.parse_xonly(x.to_bytes(32, "big"))
         return _fmt_pt(p)
     raise UnknownOp(op)
+
+
+def impl_history(lines):
+    """evaluate request lines in order in ONE process on SHARED objects — one PrivateKey per secret, one S256Point
+    per key encoding (the `.point` of the PrivateKey when a signing step created it), one SchnorrSignature object per
+    64-byte string (the object returned by sign_schnorr, which has already been self-verified, when an earlier step
+    produced that string; otherwise the parsed object).  TAG_HASH_CACHE is shared as well.  Stale state kept on any
+    of these between calls shows up as an answer that differs from the stateless model / specification."""
+    import buidl.ecc as E
+    pool, out = {}, []
+    for line in lines:
+        t = line.split(" ")
+        try:
+            op = t[0]
+            if op in ("schnorr_sign", "spec_sign", "bip340k"):
+                if ("sk", t[1]) not in pool:
+                    pk = pool[("sk", t[1])] = E.PrivateKey(int(t[1]))
+                    pool.setdefault(("pt", xb(pk.point.xonly())), pk.point)
+                    pool.setdefault(("pt", xb(pk.point.sec())), pk.point)
+                pk = pool[("sk", t[1])]
+                if op == "bip340k":
+                    out.append(str(pk.bip340_k(unx(t[2]), _aux(t[3]))))
+                else:
+                    sig = pk.sign_schnorr(unx(t[2]), _aux(t[3]))
+                    raw = sig.serialize()
+                    pool.setdefault(("sig", xb(raw)), sig)
+                    out.append(xb(raw))
+            elif op in ("schnorr_verify", "spec_verify"):
+                if ("pt", t[1]) not in pool:
+                    pool[("pt", t[1])] = E.S256Point.parse(unx(t[1]))
+                if ("sig", t[3]) not in pool:
+                    pool[("sig", t[3])] = E.SchnorrSignature.parse(unx(t[3]))
+                out.append("1" if pool[("pt", t[1])].verify_schnorr(unx(t[2]), pool[("sig", t[3])]) is True else REJECT)
+            else:
+                out.append(_impl(t))
+        except UnknownOp:
+            raise
+        except Exception:
+            out.append(REJECT)
+    return out
 
 
 IMPL_ALIAS = {"spec_sign": "schnorr_sign", "spec_verify": "schnorr_verify"}
@@ -350,7 +395,7 @@ def run(ctx):
             lines.append(("bip340k", f"bip340k {d} {xb(msg)} {a}", True))
         preds.append(("sign_verify", {"d": d, "msg": xb(msg), "aux": a}))
         # verification catalogue on a subset (≈ 10 verifications per signature)
-        if not (idx < ctx.n(30) or idx % 2 == 0):
+        if not (idx < ctx.n(24) or idx % 3 == 0):
             continue
         vsig += 1
         R, s = sig[:32], sig[32:]
@@ -385,7 +430,7 @@ def run(ctx):
             lines.append(("schnorr_verify:" + name, f"schnorr_verify {xb(pk_)} {xb(m_)} {xb(sg)}", True))
             if len(pk_) == 32:
                 lines.append(("spec_verify:" + name, f"spec_verify {xb(pk_)} {xb(m_)} {xb(sg)}", True))
-            if not name.startswith("valid"):
+            if not name.startswith("valid") and (full or len(preds) % 2 == 0):
                 preds.append(("must_reject", {"pk": xb(pk_), "msg": xb(m_), "sig": xb(sg), "why": name}))
         if idx < ctx.n(20):
             # outside the quantifier (not 64 bytes / not a 32-byte key): model against code only — observation O02a
@@ -396,6 +441,47 @@ def run(ctx):
             lines.append(("schnorr_roundtrip", f"schnorr_roundtrip {xb(sig)}", True))
             lines.append(("schnorr_parse:short", f"schnorr_parse {xb(sig[: rng.randrange(0, 64)])}", False))
             lines.append(("schnorr_roundtrip:long", f"schnorr_roundtrip {xb(sig + rbytes(rng, 3))}", False))
+    # ---- histories on shared objects (one process each)
+    hists = []   # (kind, [(impl line, [model lines])])
+
+    def sgn(d, msg, aux):
+        a = "-" if aux is None else xb(aux)
+        sa = xb(bytes(32)) if aux is None else xb(aux)
+        return (f"schnorr_sign {d} {xb(msg)} {a}", [f"schnorr_sign {d} {xb(msg)} {a}", f"spec_sign {d} {xb(msg)} {sa}"])
+
+    def ver(pk_, msg, sg):
+        l = f"schnorr_verify {xb(pk_)} {xb(msg)} {xb(sg)}"
+        return (l, [l] + ([f"spec_verify {xb(pk_)} {xb(msg)} {xb(sg)}"] if len(pk_) == 32 and len(sg) == 64 else []))
+
+    good = [(c_, i_) for c_, i_ in zip(cand, infos) if i_[0] is not None]
+    for i in range(ctx.n(12)):
+        # (a) ONE PrivateKey object: the same message with different aux values, different messages with the same aux,
+        #     interleaved and repeated; each answer must be the BIP340 signature for the CURRENT (msg, aux)
+        d = good[(i * 5) % len(good)][0][0]
+        m1, m2 = rbytes(rng, 32), rbytes(rng, 32)
+        a1, a2, a3 = rbytes(rng, 32), rbytes(rng, 32), rng.choice([None, bytes(32), rbytes(rng, 32)])
+        order = [(m1, a1), (m1, a2), (m2, a1), (m1, a1), (m1, a3), (m2, a2), (m1, a2)]
+        if i % 2:
+            order = [(m1, a2), (m2, a2), (m1, a1), (m2, a1), (m1, a2), (m1, a3)]
+        hists.append(("history:one_key_msg_aux", [sgn(d, m, a) for m, a in order]))
+    for i in range(ctx.n(24)):
+        # (b) ONE SchnorrSignature object verified several times against different messages and keys
+        (d, msg, aux), (sig, kpar, npar, xo, sec) = good[(i * 3 + 1) % len(good)]
+        xo2 = good[(i * 3 + 2) % len(good)][1][3]
+        msg2, msg3 = flip(msg, rng.randrange(256)), rbytes(rng, 32)
+        right, wrong_m, wrong_m3, wrong_k = ver(xo, msg, sig), ver(xo, msg2, sig), ver(xo, msg3, sig), ver(xo2, msg, sig)
+        v = i % 4
+        if v == 0:      # the object returned by sign_schnorr (self-verified on the right message), then altered message
+            steps = [sgn(d, msg, aux), wrong_m, right, wrong_k, wrong_m3, right]
+        elif v == 1:    # the same, right first
+            steps = [sgn(d, msg, aux), right, wrong_m, wrong_k, right, ver(sec, msg, sig)]
+        elif v == 2:    # a parsed object: right message first, then the altered ones
+            steps = [right, wrong_m, wrong_k, right, wrong_m3]
+        else:           # a parsed object: a wrong message first, then the right one
+            steps = [wrong_m, right, wrong_k, right, wrong_m, ver(sec, msg, sig)]
+        hists.append((["history:signed_object_wrong_first", "history:signed_object_right_first",
+                       "history:parsed_object_right_first", "history:parsed_object_wrong_first"][v], steps))
+
     # bad inputs to signing
     for d, msg, aux in [(0, bytes(32), bytes(32)), (N, bytes(32), bytes(32)), (N + 1, bytes(32), None), (5, bytes(31), bytes(32)),
                         (5, bytes(33), bytes(32)), (5, bytes(32), bytes(31)), (5, b"", None), (5, bytes(32), b"")]:
@@ -412,8 +498,17 @@ def run(ctx):
     impl_ans = dict(zip(uniq, pmap(impl_line, uniq, workers=ctx.workers, chunksize=8)))
     impl_ans.update(impl_seed)
     t1 = time.time()
-    answers = spread(drv, [model_line(l) for _, l, _ in lines], ctx.workers)
+    hist_impl = pmap(impl_history, [[st[0] for st in steps] for _, steps in hists], workers=ctx.workers, chunksize=1)
+    hmodel = [(hi, si, ml) for hi, (_, steps) in enumerate(hists) for si, st in enumerate(steps) for ml in st[1]]
+    all_answers = spread(drv, [model_line(l) for _, l, _ in lines] + [ml for _, _, ml in hmodel], ctx.workers)
+    answers, hanswers = all_answers[: len(lines)], all_answers[len(lines):]
     t2 = time.time()
+    for (hi, si, ml), model in zip(hmodel, hanswers):
+        kind, steps = hists[hi]
+        case = {"line": ml, "hist": [st[0] for st in steps], "step": si}
+        rec.compare(kind.split(":")[0], case, hist_impl[hi][si], model, determined=True,
+                    key=f"{hi}:{si}:{ml[:300]}", note=kind)
+        rec.count(kind)
     for (kind, line, det), model in zip(lines, answers):
         impl = impl_ans[impl_key(line)]
         trivial = kind.split(":")[-1] in ("R=p", "R=p+1", "R=2^256-1", "s=n", "s=2^256-1", "s+n", "bad_input")
@@ -440,6 +535,8 @@ def run(ctx):
 def replay(ctx, v):
     """re-execute one recorded violation exactly; True if it still violates"""
     case = v["case"]
+    if "hist" in case:
+        return impl_history(case["hist"])[case["step"]] != ctx.driver("drv_c02").one(model_line(case["line"]))
     if "line" in case:
         return impl_line(case["line"]) != ctx.driver("drv_c02").one(model_line(case["line"]))
     ok, _, _ = eval_pred((case["pred"], case))
